@@ -40,8 +40,8 @@ def run(tier, replay=None):
     res.cov["rule"] = ("proof obligations: Properties_C08.v (the term lists used to transform blocks evaluate to the rotated monomials for every real matrix and all "
                        "exponents and stay in the shell; the coincidence tests are translation invariant). Direct differential on the implementation: blocks of the "
                        "original geometry, transformed with the extracted term lists, vs blocks computed at the transformed geometry (1e-6 x max): pure translations "
-                       "up to 100 bohr, all 48 signed axis permutations, random proper/improper orthogonal matrices; integrals and first-derivative blocks "
-                       "(components rotate as vectors). distinct = (class, geometry kind, transformation)")
+                       "up to 100 bohr, all 48 signed axis permutations, random proper/improper orthogonal matrices; integrals, first-derivative blocks "
+                       "(components rotate as vectors) and, on a subset with the highest classes included, the 45 second-derivative blocks (six rank-2 groups). distinct = (class, geometry kind, transformation)")
     ok = coq_properties(res, PID)
     if not ok:
         proof_broken(res, PID, "Properties_C08.v no longer checks")
@@ -116,8 +116,48 @@ def run(tier, replay=None):
         mf2 = os.path.join(tmp, "mats2.txt")
         open(mf2, "w").write("".join("%d %s\n" % (i, " ".join(float(R[a][b]).hex() for a in range(3) for b in range(3))) for i, R in mats if str(i) in keep))
         rc, out2 = sh([os.path.join(OCAML, "drv_rot"), dof, mf2, "res", "9", "1e-6"], check=False, timeout=7200)
+        # second derivatives (45 blocks, six rank-2 groups) on a subset: every geometry kind and transformation kind, f shells included
+        lim2 = maxl - 2
+        pool = [i for i, (c, kind, R, t) in enumerate(base) if c["shells"][0]["l"] <= lim2 and c["shells"][1]["l"] <= lim2]
+        pick = pool[:: max(1, len(pool) // (24 if tier == "quick" else 160))]
+        # make sure the highest class that still has second derivatives is present in both orders
+        extra2 = []
+        for (la2, lb2) in ((lim2, 1), (1, lim2), (lim2, 2)):
+            A, B, C = gen.geometry(rng, "distinct")
+            c2 = {"id": "x", "extra": {"geom": "distinct", "order": 2}, "shells": [gen.rand_shell(rng, la2, A, nprim=1, emin=0.5, emax=3.0), gen.rand_shell(rng, lb2, B, nprim=1, emin=0.5, emax=3.0)],
+                  "ecps": [gen.rand_ecp(rng, rng.randint(1, 3), C, nper=(1, 1), amin=0.5)]}
+            extra2.append((c2, "orthogonal", rand_orth(rng), [rng.uniform(-2, 2) for _ in range(3)]))
+            extra2.append((c2, "signed-permutation", sp[rng.randint(0, 47)], [0.0, 0.0, 0.0]))
+        h_cases = []; h_mats = []
+        for j, (c, kind, R, t) in enumerate([base[i] for i in pick] + extra2):
+            o = dict(c); o["id"] = "o%d" % j; o["extra"] = dict(c["extra"], order=2)
+            tr = transform(c, R, t); tr["id"] = "t%d" % j; tr["extra"] = dict(c["extra"], order=2)
+            h_cases += [o, tr]; h_mats.append((j, R, c, kind, t))
+        hcf = os.path.join(tmp, "hcases.txt"); gen.write_cases(hcf, h_cases)
+        hof = os.path.join(tmp, "hess.txt")
+        rc, o = sh([dexe, hcf, hof], check=False, timeout=7200)
+        if rc != 0:
+            raise RuntimeError("drv_deriv (order 2) failed: " + o[-1500:])
+        mf3 = os.path.join(tmp, "mats3.txt")
+        open(mf3, "w").write("".join("%d %s\n" % (j, " ".join(float(R[a][b]).hex() for a in range(3) for b in range(3))) for j, R, _, _, _ in h_mats))
+        rc, out3 = sh([os.path.join(OCAML, "drv_rot"), hof, mf3, "res", "45", "1e-6"], check=False, timeout=7200)
+        s3 = [l for l in out3.splitlines() if l.startswith("SUMMARY")]
+        if not s3:
+            raise RuntimeError("drv_rot (second derivatives) failed: " + out3[-1500:])
+        res.cov["second_derivative_cases"] = len(h_mats)
+        bad2 = [l for l in out3.splitlines() if l.startswith("BAD")]
+        seen2 = set()
+        for l in bad2:
+            j = int(l.split()[1])
+            if j in seen2 or len(seen2) >= 2:
+                continue
+            seen2.add(j)
+            _, R, c, kind, t = h_mats[j]
+            res.violation("cov2-%d" % j, {"theorem_or_correspondence": "second-derivative blocks at the transformed geometry = blocks transformed as rank-2 tensors (1e-6 x max)",
+                                          "input": {"shells": c["shells"], "ecps": c["ecps"], "transformation": kind, "R": R, "t": t}, "observed": [x for x in bad2 if int(x.split()[1]) == j][:6], "n": len(bad2)})
         bad = []
         tot = 0; nz = 0
+        kv3 = dict(x.split("=") for x in s3[0].split()[1:]); tot += int(kv3["cases"]); nz += int(kv3["nonzero"])
         for out in (out1, out2):
             s = [l for l in out.splitlines() if l.startswith("SUMMARY")]
             if not s:
